@@ -28,32 +28,47 @@ OBLIGATIONS = ["repair_status_ok_iff", "repair_done_records_selection",
                "setup_repair_never_fails", "agent_repair_dcop_zero_iff",
                "repair_zero_hard_cost_iff_valid", "selections_exact", "repair_done_any_order",
                "repair_reported_ok_iff", "repair_ok_never_lost", "rehost_directory_consistent",
-               "repair_valid_outcome_exactly_one", "reachable_keys_distinct"]
+               "repair_valid_outcome_exactly_one", "reachable_keys_distinct",
+               "directory_table_is_dir_step"]
 RULE = ("20% real resilient thread-mode runs (4-6 variables, 4-6 agents, capacity 100000, mgm/dsa "
         "without stop condition, replication level k in 1..2, one removal event of 1..k agents, "
-        "distributions oneagent/adhoc/random, switch interval 1e-5..5e-3 s); 80% crafted protocol "
+        "distributions oneagent/adhoc/random, switch interval 1e-5..5e-3 s); 40% crafted protocol "
         "runs on the real AgentsMgt with a crafted directory (each orphan selected by 0, 1 or 2 of "
-        "its replica holders, stray ready/done messages, up to two events, repair_only flag); "
-        "non-trivial = at least one repair_done handled; distinct = distinct case JSON")
-MODELLED = ("orchestrator repair bookkeeping and the agent's activation rule are modelled and the "
-            "status / selection / replica-holder statements are theorems; 'OK only if hosted exactly "
-            "once' is refuted (duplicate selection, known finding); that MGM2 selects every orphan "
-            "exactly once, replication, transport and threads are only exercised by the real runs, "
-            "whose end state (directory + agents' computations + dumped status) the oracle checks")
+        "its replica holders, stray ready/done messages, up to two events, repair_only flag); 40% "
+        "composed repairs without threads (3-6 computations/agents, k in 1..2, 1..k agents leave, "
+        "often several adjacent orphans): real removal helpers on a real Discovery, real "
+        "ResilientAgent.setup_repair and _on_repair_computation_finished of every candidate on a "
+        "generated outcome of the repair DCOP (84% exactly one / 9% two / 7% no candidate per orphan, "
+        "35% of the cases with remaining capacities of the order of the footprints), real AgentsMgt on "
+        "the resulting repair_done messages in a shuffled order, real Directory on the departed agents' "
+        "un-publications and the new hosts' registrations in a shuffled order; "
+        "non-trivial = at least one repair_done handled / one candidate set up; distinct = distinct case JSON")
+MODELLED = ("orchestrator repair bookkeeping, setup_repair's assembly of the hosted and capacity "
+            "constraints, the activation rule and the directory table are modelled; theorems: status / "
+            "selection / replica-holder statements, hard cost 0 <=> valid re-hosting, OK <=> every orphan "
+            "selected at least once, valid outcome => OK and bookkeeping, agents and directory agree on "
+            "one surviving replica holder (any message order); 'OK only if hosted exactly once' is refuted "
+            "(duplicate selection, known finding); that MGM2 reaches a zero-hard-cost outcome, replication, "
+            "transport and threads are only exercised by the real runs, whose end state (directory + "
+            "agents' computations + dumped status) the oracle checks")
 META = dict(
-    level_text=("Partial proof (Coq): for the model of the orchestrator's repair bookkeeping and of the "
-                "agents' activation rule, for every message trace: the dumped status is OK iff no "
-                "recorded orphan is left unmarked, hence OK implies every orphan was selected by some "
-                "agent; an agent only activates computations whose replica it held; the hosts of an "
-                "orphan after the repair are exactly the agents that selected it. The clause 'OK only "
-                "if hosted exactly once' is refuted for the code as it is (two agents selecting the same "
-                "computation, known finding). Real resilient thread-mode runs with every removal choice "
-                "sampled check directory, hosted computations and status after the repair; their "
-                "management traces and crafted protocol runs are replayed through the model."),
-    level_note=("Not theorems: convergence of the MGM2 repair DCOP to a selection of every orphan exactly "
-                "once (randomised local search), replication (C25), transport, threads. Trusted: Coq "
-                "kernel, M_RepairOrch.v, the harness."),
-    technique="Coq proof over executable Gallina state machine + replay of real resilient runs",
+    level_text=("Partial proof (Coq): for the composed model of the repair pipeline (what the orchestrator "
+                "sends each candidate (C26 model), ResilientAgent.setup_repair's hosted and capacity "
+                "constraints, the activation rule, AgentsMgt's bookkeeping, the Directory table) and for "
+                "every message order: the repair DCOP has no violated hard constraint iff the outcome "
+                "selects each orphaned computation on exactly one surviving replica holder within "
+                "capacity; such an outcome is reported OK and bookkeeping, hosted computations and "
+                "directory all name that single agent, whatever the interleaving of the departed agents' "
+                "late un-publications; the status is OK iff every orphan was selected at least once, so OK "
+                "never hides a lost computation but does not exclude one hosted twice (refuted clause, "
+                "known finding). Real resilient thread-mode runs with every removal choice sampled check "
+                "directory, hosted computations and status after the repair; their management traces, "
+                "crafted protocol runs and thread-free composed repairs on the real agent / orchestrator "
+                "/ directory objects are replayed through the model."),
+    level_note=("Not theorems: that the MGM2 repair DCOP (randomised local search, 20 cycles) reaches a "
+                "zero-hard-cost outcome, replication (C25), transport, threads. Trusted: Coq kernel, "
+                "M_Repair.v, M_RepairOrch.v, M_RepairOrch2.v, the harness."),
+    technique="Coq proof over executable Gallina state machines + replay of real resilient runs",
     design_ref="DESIGN.md §5 C27",
 )
 N_QUICK, N_THOROUGH = 100, 1000
@@ -167,7 +182,7 @@ def _gen_repair(rng):
     for c in orphaned:
         cc = [a for a in replicas[c] if a not in leaving]
         r = rng.random()
-        n_sel = 1 if r < 0.7 else (2 if r < 0.85 else 0)
+        n_sel = 1 if r < 0.84 else (2 if r < 0.93 else 0)
         chosen = rng.sample(cc, min(n_sel, len(cc)))
         for a in cc:
             x["%s|%s" % (c, a)] = 1 if a in chosen else 0
@@ -560,7 +575,27 @@ def _repair(case):
     for c in case["comps"]:
         directory.register_computation(c, case["hosts"][c], "addr_" + case["hosts"][c])
     init = [[c, a] for c, a in directory._computations_data.items()]
-    ops = [["unreg", c, case["hosts"][c]] for c in case["comps"] if case["hosts"][c] in leaving]
+    # what a departing agent really un-publishes: the REAL Agent._on_stop on an agent holding
+    # its computations (its Discovery's unregister_* calls are recorded, the 0.5 s nap skipped)
+    ops = []
+    orig_sleep = ag.sleep
+    ag.sleep = lambda _s: None
+    try:
+        for a in leaving:
+            gone = ResilientAgent(a, InProcessCommunicationLayer(), AgentDef(a, capacity=100000),
+                                  "dist_ucs_hostingcosts")
+            for c in case["comps"]:
+                if case["hosts"][c] == a:
+                    gone.add_computation(build_computation(defs[c]))
+            sent = []
+            gone.discovery.unregister_computation = \
+                lambda comp, agent=None, publish=True, _s=sent: _s.append([comp, agent])
+            gone.discovery.unregister_agent = lambda *a_, **k_: None
+            gone._on_stop()
+            ops += [["unreg", c, g] for c, g in sent if c in case["hosts"]]
+    finally:
+        ag.sleep = orig_sleep
+    out["unpublished"] = [list(op) for op in ops]
     for o in obs:
         for c in o["deployed"]:
             ops.append(["reg", c, o["agent"]])
@@ -624,7 +659,7 @@ def _repair_isolated(case):
 
 def run_impl(case):
     if case["kind"] == "real":
-        return rt.run_isolated(_real, case, hard_timeout=RUN_TIMEOUT + 60)
+        return rt.run_isolated(_real, case, hard_timeout=RUN_TIMEOUT + 60, retries=1)
     if case["kind"] == "repair":
         return _repair_isolated(case)
     return _crafted_isolated(case)
@@ -656,14 +691,16 @@ def _problems(case, o):
     status = o["repair_status"][-1] if o["repair_status"] else None
     bad = False
     for c in nodes:
-        live = [a for a, cs in o["hosted"].items() if c in cs and a not in leaving]
+        # o["hosted"] lists the agents whose thread is still running: an agent removed by the
+        # event that is still alive and still holds the computation counts as a live host
+        live = [a for a, cs in o["hosted"].items() if c in cs]
         dirs = [a for a, cs in o["directory"].items() if c in cs and a not in leaving]
         if len(live) != 1 or len(dirs) != 1 or live != dirs:
             bad = True
             fid = None
             if c in orphaned and len(live) == 0 and status == "KO":
                 fid = F_LOST
-            elif c in orphaned and len(live) > 1:
+            elif c in orphaned and len(live) > 1 and not [a for a in live if a in leaving]:
                 fid = F_DUP
             out.append((fid, "computation %s hosted by agents %r (directory: %r) after the repair, status %s"
                         % (c, live, dirs, status)))
@@ -687,6 +724,12 @@ def oracle(case, o):
         return "run failed: %s %s" % (o["error"], o.get("detail", ""))
     if case["kind"] == "crafted":
         return _crafted_oracle(case, o)
+    if case["kind"] == "repair":
+        p = _repair_problems(case, o)
+        if p:
+            unknown = [t for f, t in p if f is None]
+            return "; ".join((unknown or [t for _, t in p])[:3])
+        return None
     p = _problems(case, o)
     if p:
         unknown = [t for f, t in p if f is None]
@@ -699,7 +742,10 @@ def classify(case, o, msg):
         return None
     if case["kind"] == "crafted" and o.get("critical"):
         return None
-    p = _problems(case, o) if case["kind"] == "real" else _crafted_problems(case, o)
+    if case["kind"] == "repair":
+        p = _repair_problems(case, o)
+    else:
+        p = _problems(case, o) if case["kind"] == "real" else _crafted_problems(case, o)
     ids = {f for f, _ in p}
     if p and None not in ids and len(ids) == 1:
         return ids.pop()
@@ -756,6 +802,87 @@ def _crafted_problems(case, o):
     return out
 
 
+def _repair_problems(case, o):
+    """independent reading of one composed repair: what every candidate built and activated, the
+    bridge 'no violated hard constraint <=> valid re-hosting', the orchestrator's verdict and the
+    hosting / directory state afterwards"""
+    out = []
+    leaving = set(case["leaving"])
+    x = {tuple(k.split("|")): v for k, v in case["x"].items()}
+    hosts, fp = case["hosts"], case["fp"]
+    orphaned = [c for c in case["comps"] if hosts[c] in leaving]
+    holders = {c: sorted(a for a in case["replicas"][c] if a not in leaving) for c in orphaned}
+    if sorted(o["orphaned"]) != sorted(orphaned):
+        out.append((None, "orphaned computations %r, expected %r" % (o["orphaned"], orphaned)))
+    want_cands = sorted({a for c in orphaned for a in holders[c]})
+    if sorted(o["cands"]) != want_cands or len(set(o["cands"])) != len(o["cands"]):
+        out.append((None, "candidate agents %r, expected %r" % (o["cands"], want_cands)))
+    if [ao["agent"] for ao in o["agents"]] != list(o["cands"]):
+        out.append((None, "agents set up %r" % ([ao["agent"] for ao in o["agents"]],)))
+    total = 0
+    for ao in o["agents"]:
+        a = ao["agent"]
+        mine = [c for c in orphaned if a in holders[c]]
+        if sorted(h[0] for h in ao["hosted"]) != sorted(mine):
+            out.append((None, "%s built hosted constraints for %r, its candidates are %r" % (
+                a, [h[0] for h in ao["hosted"]], mine)))
+        for comp, keys, scope, consistent, val in ao["hosted"]:
+            want = [[comp, h] for h in holders.get(comp, [])]
+            if keys != want or scope != ["B%s_%s" % (c, h) for c, h in want] or not consistent:
+                out.append((None, "hosted constraint of %s on %s is over %r %r, expected the variables of %r" % (
+                    comp, a, keys, scope, want)))
+            total += val
+        cap = ao["capacity"]
+        if cap is None:
+            out.append((None, "%s built no capacity constraint" % a))
+            continue
+        if cap[0] != case["slack"][a] or sorted(cap[1]) != sorted([c, a] for c in mine) \
+                or cap[2] != ["B%s_%s" % (c, h) for c, h in cap[1]]:
+            out.append((None, "capacity constraint of %s: remaining %r over %r %r; expected remaining %r over %r" % (
+                a, cap[0], cap[1], cap[2], case["slack"][a], mine)))
+        total += cap[3]
+        want_sel = sorted(c for c in mine if x.get((c, a), 0) == 1)
+        if len(ao["reported"]) != 1 or sorted(ao["reported"][0]) != want_sel or ao["deployed"] != want_sel:
+            out.append((None, "%s reported %r and deployed %r, its variables at 1 are %r" % (
+                a, ao["reported"], ao["deployed"], want_sel)))
+    count = {c: sum(x.get((c, h), 0) for h in holders[c]) for c in orphaned}
+    fits = all(sum(fp[c] for c in orphaned if a in holders[c] and x.get((c, a), 0) == 1) <= case["slack"][a]
+               for a in want_cands)
+    valid = all(count[c] == 1 for c in orphaned if holders[c]) and fits
+    if (total == 0) != valid:
+        out.append((None, "hard constraints sum to %d although the outcome is %s (selected %r, fits %s)" % (
+            total, "a valid re-hosting" if valid else "not a valid re-hosting", count, fits)))
+    if orphaned:
+        if "orch" not in o:
+            out.append((None, "no repair_done report from every candidate: orchestrator not driven"))
+        else:
+            if o["orch"].get("critical"):
+                out.append((None, "orchestrator handler raised"))
+            out += _crafted_problems(o["orch_case"], o["orch"])
+    if sorted(o.get("unpublished", [])) != sorted(["unreg", c, hosts[c]] for c in orphaned):
+        out.append((None, "the departing agents un-published %r, expected every orphaned computation once, "
+                          "in the name of its host" % (o.get("unpublished"),)))
+    # hosting and directory afterwards
+    final = dict((c, a) for c, a in o["dir"]["final"])
+    for c in case["comps"]:
+        if c not in orphaned:
+            if final.get(c) != hosts[c] or o["dir"]["disc"].get(c) != hosts[c]:
+                out.append((None, "%s stayed on %s but the directory says %r / %r" % (
+                    c, hosts[c], final.get(c), o["dir"]["disc"].get(c))))
+            continue
+        live = sorted(ao["agent"] for ao in o["agents"] if c in ao["deployed"])
+        if count[c] == 1:
+            want = [h for h in holders[c] if x.get((c, h), 0) == 1]
+            if live != want:
+                out.append((None, "%s selected on %r but hosted by %r" % (c, want, live)))
+            elif final.get(c) != want[0] or o["dir"]["disc"].get(c) != want[0]:
+                out.append((None, "%s re-hosted on %s but the directory names %r (its discovery %r)" % (
+                    c, want[0], final.get(c), o["dir"]["disc"].get(c))))
+        elif count[c] == 0 and (live or c in final):
+            out.append((None, "%s selected by nobody but hosted by %r / directory %r" % (c, live, final.get(c))))
+    return out
+
+
 def _crafted_oracle(case, o):
     if o.get("critical"):
         return "orchestrator handler raised (critical error path) %d time(s)" % o["critical"]
@@ -783,9 +910,55 @@ def _rout(x):
     raise ValueError("sent message not modelled: %r" % (x,))
 
 
+def _bkey(k):
+    return q.pair(q.s(k[0]), q.s(k[1]))
+
+
+def _pairs(l, fa, fb):
+    return q.lst([q.pair(fa(a), fb(b_)) for a, b_ in l])
+
+
+def _repair_term(case, o):
+    scen = "(mkScen (mkDisc %s %s) %s %s %s %s)" % (
+        _pairs(o["view"]["comps"], q.s, q.s), _pairs(o["view"]["replicas"], q.s, q.slist),
+        _pairs(o["graph"], q.s, q.slist), q.slist(case["leaving"]),
+        q.szdict({a: case["slack"][a] for a in o["cands"]}), q.szdict(case["fp"]))
+    xt = q.lst([q.pair(_bkey(k.split("|")), q.z(v)) for k, v in sorted(case["x"].items())])
+    obs = []
+    total = 0
+    for ao in o["agents"]:
+        hosted = q.lst(["(%s, %s, %s, %s)" % (q.s(c), q.lst([_bkey(k) for k in ks]), q.slist(sc), q.z(v))
+                        for c, ks, sc, _, v in ao["hosted"]])
+        cap = ao["capacity"] or [0, [], [], 0]
+        total += sum(h[4] for h in ao["hosted"]) + cap[3]
+        obs.append("(mkAO %s %s %s %s %s %s %s)" % (
+            q.s(ao["agent"]), _pairs(ao["cbv"], _bkey, q.s), hosted, q.lst([_bkey(k) for k in cap[1]]),
+            q.slist(cap[2]), q.z(cap[3]), q.slist(ao["reported"][0] if ao["reported"] else [])))
+    return "KRepair %s %s %s %s %s" % (scen, q.slist(o["cands"]), xt, q.lst(obs), q.z(total))
+
+
+def _dir_term(dr):
+    ops = []
+    for op in dr["ops"]:
+        if op[0] == "reg":
+            ops.append("DReg %s %s" % (q.s(op[1]), q.s(op[2])))
+        else:
+            ops.append("DUnreg %s %s" % (q.s(op[1]), q.opt(op[2], q.s)))
+    return "KDir %s %s %s" % (_pairs(dr["init"], q.s, q.s), q.lst(ops), _pairs(dr["final"], q.s, q.s))
+
+
 def coq_case(case, o):
     if "error" in o:
         return None
+    if case["kind"] == "repair":
+        atoms = [_repair_term(case, o), _dir_term(o["dir"])]
+        if "orch" in o:
+            atoms.append("KOrch (%s)" % _orch_term(o["orch_case"], o["orch"]))
+        return q.lst(atoms)
+    return q.lst(["KOrch (%s)" % _orch_term(case, o)])
+
+
+def _orch_term(case, o):
     steps = []
     for e in o["trace"]:
         ev = e["ev"]
@@ -815,6 +988,8 @@ def coq_case(case, o):
 
 
 def nontrivial(case, o):
+    if case["kind"] == "repair":
+        return bool(o.get("agents"))
     return any(e["ev"]["t"] == "repair_done" for e in o.get("trace", []))
 
 
@@ -824,6 +999,17 @@ def histogram(cases, obs):
         h[c["kind"]] = h.get(c["kind"], 0) + 1
         if "error" in o:
             h["error/" + o["error"]] = h.get("error/" + o["error"], 0) + 1
+            continue
+        if c["kind"] == "repair":
+            tot = sum(sum(x[4] for x in ao["hosted"]) + (ao["capacity"] or [0, 0, 0, 0])[3] for ao in o["agents"])
+            key = "repair_hard_cost_" + ("zero" if tot == 0 else "positive")
+            h[key] = h.get(key, 0) + 1
+            h["repair_agents_set_up"] = h.get("repair_agents_set_up", 0) + len(o["agents"])
+            h["repair_dir_ops"] = h.get("repair_dir_ops", 0) + len(o["dir"]["ops"])
+            for e in o.get("orch", {}).get("trace", []):
+                for x in e["outs"]:
+                    if x[0] == "status":
+                        h["repair_status/" + x[1]] = h.get("repair_status/" + x[1], 0) + 1
             continue
         for e in o["trace"]:
             for x in e["outs"]:
